@@ -62,7 +62,11 @@ contract(LK + 'all_points_all_clusters_log_likelihood', props=['C05', 'C03', 'C1
                    "model.clusters[k].train_inverse.shape[1] == stacked_training_data.shape[1] and is_spd(model.clusters[k].train_inverse))"],
          # the two derived cache fields are refreshed in the clusters of the state given (see DESIGN: not labelling/membership/statistics)
          assigns=['model.clusters[*].inverse_covariance', 'model.clusters[*].log_determinant'],
-         ghost={'cumulative_posts': True, 'returns': dict(MUS='mus', TH='thetas', LD='log_det_thetas', ND='ghost_all_points_all_clusters_log_likelihood_fast_ND'),
+         ghost={'native_ensures': [("native:table-is-finite-and-is-the-gaussian-log-density",
+                                    "bool(np.all(np.isfinite(result))) and all(result[p, c] == gauss_ll(stacked_training_data[p], "
+                                    "model.clusters[c].stacked_data_mean, model.clusters[c].train_inverse, logdet(model.clusters[c].train_inverse), "
+                                    "stacked_training_data.shape[1]) for p in range(result.shape[0]) for c in range(result.shape[1]))")],
+                'cumulative_posts': True, 'returns': dict(MUS='mus', TH='thetas', LD='log_det_thetas', ND='ghost_all_points_all_clusters_log_likelihood_fast_ND'),
                 'return_kinds': dict(MUS='list[arr1[real]]', TH='list[arr2[real]]', LD='arr1[real]', ND='int')},
          ensures=["result.shape[0] == stacked_training_data.shape[0] and result.shape[1] == " + _KC,
                   ("cache-fields-refreshed-from-the-fitted-precision", "forall(0, " + _KC + ", lambda k: "
